@@ -12,6 +12,7 @@ path-steering signals below derive from ``BaseException``.
 from __future__ import annotations
 
 import math
+import os
 import time
 from fractions import Fraction
 
@@ -621,13 +622,14 @@ class Stats:
         self.div_assumptions = 0
         self.sqrt_assumptions = 0
         self.side_unknown = 0
+        self.fresh_solver_queries = 0
         self.witnesses = {}
         self.samples = []
         self.exceptions = {}
 
     def merge(self, o):
         for k in ("paths", "aborted_paths", "queries", "unknown", "proved", "forks",
-                  "div_assumptions", "sqrt_assumptions", "side_unknown"):
+                  "div_assumptions", "sqrt_assumptions", "side_unknown", "fresh_solver_queries"):
             setattr(self, k, getattr(self, k) + getattr(o, k))
         self.solver_s += o.solver_s
         for k, v in o.witnesses.items():
@@ -813,26 +815,41 @@ class Ctx:
         return [self.pc[i] for i in chosen]
 
     def _solve(self, constraints, timeout_ms=None, count_unknown=True):
+        """Portfolio: (1) the shared incremental solver under a short budget
+        (cheap, decides almost everything); (2) on unknown, a fresh solver with
+        no push/pop scopes, so that z3 runs its full non-incremental tactic
+        pipeline (nlsat), which decides nonlinear real queries the incremental
+        core gives up on."""
+        full = timeout_ms if timeout_ms is not None else self.ex.query_timeout_ms
+        t = time.perf_counter()
         s = self.solver
         s.push()
         try:
-            if timeout_ms is not None:
-                s.set("timeout", timeout_ms)
+            s.set("timeout", min(full, self.ex.incremental_timeout_ms))
             s.add(*constraints)
-            t = time.perf_counter()
             r = s.check()
-            self.stats.solver_s += time.perf_counter() - t
-            self.stats.queries += 1
-            if r == z3.unknown:
-                if count_unknown:
-                    self.stats.unknown += 1
-                else:
-                    self.stats.side_unknown += 1
             m = s.model() if r == z3.sat else None
         finally:
             s.pop()
-            if timeout_ms is not None:
-                s.set("timeout", self.ex.query_timeout_ms)
+        if r == z3.unknown:
+            s = z3.Solver()
+            s.set("timeout", full)
+            s.add(*constraints)
+            r = s.check()
+            m = s.model() if r == z3.sat else None
+            self.stats.fresh_solver_queries += 1
+        self.stats.solver_s += time.perf_counter() - t
+        self.stats.queries += 1
+        if r == z3.unknown:
+            if count_unknown:
+                self.stats.unknown += 1
+                dump = os.environ.get("SYMX_DUMP_UNKNOWN")
+                if dump:
+                    os.makedirs(dump, exist_ok=True)
+                    with open(os.path.join(dump, f"q{os.getpid()}_{self.stats.queries}.smt2"), "w") as f:
+                        f.write(s.to_smt2())
+            else:
+                self.stats.side_unknown += 1
         return r, m
 
     def _check_quick(self, *extras):
@@ -1161,7 +1178,8 @@ class Explorer:
 
     def __init__(self, query_timeout_ms=20000, max_paths=200000, wall_budget_s=None,
                  div_policy="assume", sqrt_policy="assume", stop_on_violation=True,
-                 relax_ints=False, side_timeout_ms=2000, poly_division=True, normalize=True):
+                 relax_ints=False, side_timeout_ms=2000, poly_division=True, normalize=True,
+                 incremental_timeout_ms=1500):
         self.solver = z3.Solver()
         self.solver.set("timeout", query_timeout_ms)
         self.query_timeout_ms = query_timeout_ms
@@ -1176,6 +1194,7 @@ class Explorer:
         self.relax_ints = relax_ints
         self.poly_division = poly_division
         self.normalize = normalize
+        self.incremental_timeout_ms = incremental_timeout_ms
         self._work = []
         self._prefix = []
         self._sqrt_cache = {}
